@@ -58,6 +58,8 @@ func (c10) Gen(rng *rand.Rand, tier string, k int) *Case {
 			cnt := rng.Intn(5)
 			if rng.Intn(50) == 0 {
 				cnt = 257 + rng.Intn(400) // a long history in one Append (more than any batch size)
+			} else if rng.Intn(20) == 0 {
+				cnt = 6 + rng.Intn(200) // every length in between, so that totals of any size are read back
 			}
 			gap := rng.Intn(3)
 			if next[name] > 2 && rng.Intn(4) == 0 {
@@ -66,7 +68,7 @@ func (c10) Gen(rng *rand.Rand, tier string, k int) *Case {
 				c.Ops = append(c.Ops, OpSpec{Op: "append", Name: name, N: 1 + rng.Intn(3), From: rng.Intn(next[name]), Seed: rng.Int63n(1 << 30)})
 				break
 			}
-			c.Ops = append(c.Ops, OpSpec{Op: "append", Name: name, N: cnt, From: next[name] + gap, Seed: rng.Int63n(1 << 30)})
+			c.Ops = append(c.Ops, OpSpec{Op: "append", Name: name, N: cnt, From: next[name] + gap, Seed: rng.Int63n(1 << 30), Half: cnt > 0 && rng.Intn(10) == 0})
 			next[name] += gap + cnt + rng.Intn(2)
 		case x < 6:
 			if rng.Intn(6) == 0 {
@@ -302,6 +304,14 @@ func (c10) Run(c *Case, st *Stats) []Violation {
 				switch op.Op {
 				case "append":
 					snaps := genRepoSnapshots(op)
+					if op.Half && len(snaps) > 0 && c.Impl != "sql" {
+						// the provider delivers one bar twice in a row (the list of appended snapshots
+						// then holds it twice; the SQL schema keys rows by date and is left out)
+						k := int(op.Seed % int64(len(snaps)))
+						dup := *snaps[k]
+						snaps = append(snaps[:k+1], append([]*asset.Snapshot{&dup}, snaps[k+1:]...)...)
+						st.Faults["snapshot-delivered-twice-in-a-row"]++
+					}
 					ch := make(chan *asset.Snapshot, c.Cap)
 					simrt.GoKind("prod", func() {
 						for _, v := range snaps {
